@@ -390,8 +390,25 @@ func (e *c17Env) materialize(c c17Case) (*c17Mat, error) {
 			return target
 		// repository
 		case "R_DEFAULT":
-			mark("either", "internal name of the default repository")
+			if e.serves(gqlDefaultRepoName) {
+				mark("either", "internal name of the default repository")
+			} else {
+				mark("invalid", "name of the default repository although none is served")
+			}
 			return gqlDefaultRepoName
+		case "R_NAME":
+			// the name under which the addressed repository is registered
+			if e.repoName == gqlDefaultRepoName {
+				mark("either", "internal name of the default repository")
+			}
+			return e.repoName
+		case "R_EMPTY":
+			if e.nServed() == 1 {
+				mark("either", "empty repository name")
+			} else {
+				mark("invalid", "empty repository name although several repositories are served")
+			}
+			return ""
 		case "R_UNKNOWN":
 			mark("invalid", "unknown repository")
 			return "no-such-repo"
@@ -508,6 +525,9 @@ func (e *c17Env) materialize(c c17Case) (*c17Mat, error) {
 		cl, ok := c.Fields[path]
 		if !ok {
 			cl = "OMIT"
+		}
+		if (cl == "OMIT" || cl == "NULL") && l.Family == "repo" && e.nServed() > 1 {
+			mark("invalid", "no repository named although several are served (there is no default)")
 		}
 		switch cl {
 		case "OMIT":
